@@ -12,6 +12,13 @@ def signature(msg, case_lines):
         r = re.search(r"reason=(\S+)", msg)
         return "post-rejected:" + (r.group(1)[:60] if r else "?")
     if w == "post-readreg":
+        # the two known causes of wrong hazard logic are selected by facts of the DESIGN (driver: hazardFacts), checked before the generic
+        # signature: a failure in a design with one enable domain and latency <= 2 keeps the generic signature and stays a VIOLATION
+        hz0 = re.search(r"hazard=(\S+)", msg); dm = re.search(r"domains=(\S+)", msg); rg = re.search(r"ring=(\S+)", msg)
+        if hz0 and hz0.group(1) == "true" and dm and dm.group(1) == "mixed":
+            return "what:post-readreg:hazard:mixed-enable-domains"
+        if hz0 and hz0.group(1) == "true" and rg and rg.group(1) == "true":
+            return "what:post-readreg:hazard:ring-buffer-under-enable"
         hz = re.search(r"hazard=(\S+)", msg); en = re.search(r"port_en=(\S+)", msg); rs = re.search(r"port_rst=(\S+)", msg); dv = re.search(r"dev=(\S+)", msg)
         return "what:post-readreg:%s:%s:%s%s" % ("hazard" if hz and hz.group(1) == "true" else "plain", "enable" if en and en.group(1) == "true" else "noenable",
                                                   "resetvalue" if rs and rs.group(1) == "true" else "noresetvalue", ":dev" + dv.group(1) if dv and dv.group(1) != "0" else "")
@@ -33,10 +40,12 @@ vlib.standard_check({
     #   mode 0 no device / 1 Intel / 2 Xilinx / 3 undefined inputs / 4 out-of-range addresses / 5 reset-initialised / 6 guards, 3 write ports, ROMs /
     #   7 writes issued under reset (observation only: counted, never a violation) /
     #   8 reset-logic family: addResetLogic / initZero / reset ROM x sync, async reset x depth 1, 2, pow2, non-pow2 x longer reset x writes during / right after reset /
-    #   9 read-register family: read latency registers with/without reset value x with/without read enable, enable low after reset
-    "streams": {"quick": [[2000, 300, 0], [500, 200, 1], [500, 200, 2], [300, 200, 3], [150, 200, 4], [300, 300, 5], [200, 100, 6], [100, 100, 7], [500, 60, 8], [700, 80, 9]],
-                "thorough": [[12000, 400, 0], [4000, 300, 1], [4000, 300, 2], [2000, 300, 3], [1000, 300, 4], [2000, 400, 5], [1000, 200, 6], [500, 3000, 0, 1], [500, 100, 7], [5000, 80, 8], [8000, 100, 9]]},
-    "search": [[3000, 300, 0], [600, 200, 1], [600, 200, 2], [600, 300, 5], [2000, 60, 8], [2000, 80, 9]],
+    #   9 read-register family: read latency registers with/without reset value x no / uniform / per-stage enable scopes, RAM and ROM, enable low after reset
+    #   10 = 9 plus read-modify-write while the read ports of the memory run under different enable conditions, and latency 3 (ring buffer
+    #      mode of the hazard logic) under an enable: two known findings (harness/examples/c07_finding_hazard_bypass_mixed_enable_domains.cpp.txt)
+    "streams": {"quick": [[2000, 300, 0], [500, 200, 1], [500, 200, 2], [300, 200, 3], [150, 200, 4], [300, 300, 5], [200, 100, 6], [100, 100, 7], [500, 60, 8], [700, 80, 9], [400, 80, 10]],
+                "thorough": [[12000, 400, 0], [4000, 300, 1], [4000, 300, 2], [2000, 300, 3], [1000, 300, 4], [2000, 400, 5], [1000, 200, 6], [500, 3000, 0, 1], [500, 100, 7], [5000, 80, 8], [8000, 100, 9], [4000, 100, 10]]},
+    "search": [[3000, 300, 0], [600, 200, 1], [600, 200, 2], [600, 300, 5], [2000, 60, 8], [2000, 80, 9], [1500, 80, 10]],
     "signature": signature,
     "eval_key": "ops",
     "nontrivial": lambda t: t.get("read_after_write_collisions", 0) + t.get("write_write_collisions", 0) + t.get("hazard_cases", 0),
@@ -44,7 +53,7 @@ vlib.standard_check({
             "order, shared/own address pins, IF-conditional and unconditional writes, write data from a pin or pin XOR an earlier read port (read-modify-write: "
             "makes post-processing retime the write ports and generate hazard bypass logic), depth in {2,4,8,16,32,64} and {3,5,6,7,12,17,24,100}, width in "
             "{1,2,3,4,5,8,12,16,33}, MemType x read latency 0..3, no/zero/random/partial power-on contents, clock with and without synchronous reset, memory "
-            "reset logic (memoryResetType SYNCHRONOUS / ASYNCHRONOUS; initZero, addResetLogic network, reset ROM; depth 1, 2, 2^k, non 2^k; reset held 0..3 cycles longer than required; writes during reset or forced right after it), read latency registers with reset values and/or read enables (enable low for 1..4 cycles after reset), no device / Intel Arria 10, Cyclone 10 / Xilinx Kintex Ultrascale, Zynq-7; random access sequences with "
+            "reset logic (memoryResetType SYNCHRONOUS / ASYNCHRONOUS; initZero, addResetLogic network, reset ROM; depth 1, 2, 2^k, non 2^k; reset held 0..3 cycles longer than required; writes during reset or forced right after it), read latency registers with reset values and/or enable scopes (none / one read enable / per-stage enables with own, shared or no pin; RAMs and ROMs; enables low for 1..4 cycles after reset then toggling independently of the addresses; read-modify-write with the write port in the read enable's scope), checked against ArrMem followed by the proved enable-gated pipeline model (pipeStep), no device / Intel Arria 10, Cyclone 10 / Xilinx Kintex Ultrascale, Zynq-7; random access sequences with "
             "two hot addresses and same-address bursts; every cycle: model vs sampled async read data (DIFF), data pins before and after design.postprocess() "
             "vs ArrMem with the declared latency (PROPFAIL); non-trivial = same-cycle read-after-write and write-write collisions + designs with bypass logic",
     "trusted_base": ["Lean 4.33 kernel", "axioms: propext, Classical.choice, Quot.sound only (audited per theorem)",
@@ -53,7 +62,8 @@ vlib.standard_check({
                   "Lean models of convertToReadBeforeWrite, resolveWriteOrder (loop as written) and of the ReadModifyWriteHazardLogicBuilder pipeline proved sound for all "
                   "port counts and all latencies K>=1 and composed into 'post-processed data pin at t+K = ArrMem at t'; the MemPort model is tied to the code by differential "
                   "execution on every cycle, the post-processed netlists (incl. vendor primitives) are compared output-only against ArrMem.",
-    "assumptions": ["addresses fully defined and < depth, enables defined (statement's domain); out-of-range/undefined controls only model-vs-code (modes 3, 4)",
+    "assumptions": ["read-latency registers of one read port under different enable scopes that would have to be retimed (write declared before the read, logic in between) are refused by gatery with an explicit design check (RegisterRetiming.cpp:1416-1431): counted as rejected-not-judged, the guard is modelled (DIFF if it changes)",
+                    "addresses fully defined and < depth, enables defined (statement's domain); out-of-range/undefined controls only model-vs-code (modes 3, 4)",
                     "no write is issued while the clock's reset is asserted (first cycle with a synchronous reset; depth+4 cycles with memory reset logic)",
                     "retiming itself (moving registers across the read-before-write muxes) is not modelled; ring-buffer mode (latency > 2), vendor primitives, reset logic only by correspondence",
                     "a data-pin bit counts as correct if ArrMem's bit is undefined (uninitialised memory, undefined write data)"],
